@@ -257,7 +257,7 @@ class MetadataGenerator:
 
         if len(types) > 1:
             if Unknown in types:
-                types.remove(Unknown)
+                types = [item for item in types if item is not Unknown]
 
             optional = False
             if Null in types:
